@@ -1048,9 +1048,6 @@ func vfRoutes(x []byte, limit uint32, want *MIME) error {
 		if limit > 0 && n > int(limit) {
 			return fmt.Errorf("DetectReader over a %s under limit %d consumed %d bytes", kind, limit, n)
 		}
-		if wantN := min(len(x), int(limit)); limit > 0 && n < wantN {
-			return fmt.Errorf("DetectReader over a %s under limit %d consumed only %d of the %d header bytes yet answered", kind, limit, n, wantN)
-		}
 		if limit == 0 && n != len(x) {
 			return fmt.Errorf("DetectReader over a %s without limit consumed %d of %d bytes", kind, n, len(x))
 		}
